@@ -34,40 +34,39 @@ theorem mangle_dir_legal (upper : Upper) (hup : ∀ c, upper c ≠ []) (s : List
     have : maxLen lvl true ≤ 31 := by unfold maxLen; split <;> simp
     omega
 
-/-- **C18 (files)**: the identifier `'.'.join(mangle_file_for_iso9660(s, lvl))` that the facades and
-pycdlib-genisoimage build is accepted by the library at that level, for every non-empty source name. -/
-theorem mangle_file_legal (upper : Upper) (hup : ∀ c, upper c ≠ []) (s : List Char) (hs : s ≠ [])
-    (lvl : Nat) (hl : 1 ≤ lvl ∧ lvl ≤ 3) :
-    checkIsoFilename lvl (asciiBytes (mangledFileIdent upper s lvl)) = .ok () := by
-  apply (check_file_iff _ _).mpr
-  have h4 : lvl ≠ 4 := by omega
-  have key : ∃ b e : List Char, mangleFile upper s lvl = (b, e ++ [';', '1']) ∧
+/-- shape of what `mangle_file_for_iso9660` returns at levels 1-3 -/
+theorem mangleFile_shape (upper : Upper) (hup : ∀ c, upper c ≠ []) (s : List Char) (hs : s ≠ [])
+    (lvl : Nat) (h4 : lvl ≠ 4) :
+    ∃ b e : List Char, mangleFile upper s lvl = (b, e ++ [';', '1']) ∧
       (∀ c ∈ b, isD1Char c = true) ∧ (∀ c ∈ e, isD1Char c = true) ∧
       b.length ≤ maxLen lvl false ∧ e.length ≤ 3 ∧ (b ≠ [] ∨ e ≠ []) := by
-    unfold mangleFile
-    cases hsp : splitLast '.' s with
-    | none =>
-      simp only [h4, if_false]
-      exact ⟨_, [], rfl, truncate_chars upper s lvl false h4, by simp, truncate_length upper s lvl false h4,
+  unfold mangleFile
+  cases hsp : splitLast '.' s with
+  | none =>
+    simp only [h4, if_false]
+    exact ⟨_, [], rfl, truncate_chars upper s lvl false h4, by simp, truncate_length upper s lvl false h4,
+      by simp, Or.inl (truncate_ne_nil upper hup s hs lvl false h4)⟩
+  | some p =>
+    obtain ⟨base, ext⟩ := p
+    simp only [h4, if_false]
+    split
+    · exact ⟨_, [], rfl, truncate_chars upper s lvl false h4, by simp, truncate_length upper s lvl false h4,
         by simp, Or.inl (truncate_ne_nil upper hup s hs lvl false h4)⟩
-    | some p =>
-      obtain ⟨base, ext⟩ := p
-      simp only [h4, if_false]
-      split
-      · exact ⟨_, [], rfl, truncate_chars upper s lvl false h4, by simp, truncate_length upper s lvl false h4,
-          by simp, Or.inl (truncate_ne_nil upper hup s hs lvl false h4)⟩
-      · rename_i hcond
-        simp only [Bool.or_eq_true, decide_eq_true_eq, Bool.not_eq_true', not_or, Bool.not_eq_false,
-          List.all_eq_true] at hcond
-        obtain ⟨⟨⟨h0, _⟩, h3⟩, hall⟩ := hcond
-        refine ⟨_, upperStr upper ext, rfl, truncate_chars upper base lvl false h4, hall,
-          truncate_length upper base lvl false h4, by omega, Or.inr ?_⟩
-        apply upperStr_ne_nil upper hup
-        intro he; apply h0; simp [he]
-  obtain ⟨b, e, hm, hb, he, hbl, hel, hne⟩ := key
-  unfold mangledFileIdent
-  rw [hm]
-  simp only
+    · rename_i hcond
+      simp only [Bool.or_eq_true, decide_eq_true_eq, Bool.not_eq_true', not_or, Bool.not_eq_false,
+        List.all_eq_true] at hcond
+      obtain ⟨⟨⟨h0, _⟩, h3⟩, hall⟩ := hcond
+      refine ⟨_, upperStr upper ext, rfl, truncate_chars upper base lvl false h4, hall,
+        truncate_length upper base lvl false h4, by omega, Or.inr ?_⟩
+      apply upperStr_ne_nil upper hup
+      intro he; apply h0; simp [he]
+
+/-- any `BASE.EXT;1` with d-character parts of legal lengths is accepted by the library -/
+theorem file_ident_legal (lvl : Nat) (b e : List Char)
+    (hb : ∀ c ∈ b, isD1Char c = true) (he : ∀ c ∈ e, isD1Char c = true)
+    (hbl : b.length ≤ maxLen lvl false) (hel : e.length ≤ 3) (hne : b ≠ [] ∨ e ≠ []) :
+    checkIsoFilename lvl (asciiBytes (b ++ '.' :: (e ++ [';', '1']))) = .ok () := by
+  apply (check_file_iff _ _).mpr
   have hbb := asciiBytes_d1 b hb
   have heb := asciiBytes_d1 e he
   refine ⟨asciiBytes b, asciiBytes e, [49], true, true, ?_, by simp, by simp, d1_not_dot _ heb,
@@ -89,6 +88,17 @@ theorem mangle_file_legal (upper : Upper) (hup : ∀ c, upper c ≠ []) (s : Lis
     rw [asciiBytes_length, asciiBytes_length]
     subst h1
     exact ⟨by simpa [maxLen] using hbl, hel⟩
+
+/-- **C18 (files)**: the identifier `'.'.join(mangle_file_for_iso9660(s, lvl))` that the facades and
+pycdlib-genisoimage build is accepted by the library at that level, for every non-empty source name. -/
+theorem mangle_file_legal (upper : Upper) (hup : ∀ c, upper c ≠ []) (s : List Char) (hs : s ≠ [])
+    (lvl : Nat) (hl : 1 ≤ lvl ∧ lvl ≤ 3) :
+    checkIsoFilename lvl (asciiBytes (mangledFileIdent upper s lvl)) = .ok () := by
+  have h4 : lvl ≠ 4 := by omega
+  obtain ⟨b, e, hm, hb, he, hbl, hel, hne⟩ := mangleFile_shape upper hup s hs lvl h4
+  unfold mangledFileIdent
+  rw [hm]
+  exact file_ident_legal lvl b e hb he hbl hel hne
 
 /-- **C18 (identity, directories)**: an already legal directory name is returned unchanged. -/
 theorem mangle_dir_identity (upper : Upper) (hu : ∀ c, isD1Char c = true → upper c = [c])
